@@ -51,6 +51,13 @@ def call_value(m: Any, func: V, args: list[V], kwargs: dict[str, V], node: ast.C
             if cls == "object" and name == "__setattr__":
                 return call_value(m, VPy(("setattr",)), args, kwargs, node)
         if tag == "modattr":
+            ext = getattr(m.world, "extern_calls", {}).get((func.obj[1], func.obj[2]))
+            if ext is not None:
+                from .symex import RaiseSig as _RS
+                ret_sort, may_raise = ext
+                if may_raise and not m.spec and m.ctx.branch(z3.Bool(fresh_name("extern_raises"))):
+                    raise _RS(VExc(may_raise))
+                return NONE if ret_sort is None else m.fresh_of(ret_sort, func.obj[2])
             raise EngineError(f"call of {func.obj[1]}.{func.obj[2]} not modelled")
     if isinstance(func, VBound):
         return call_method(m, func.recv, func.name, args, kwargs, node)
@@ -455,6 +462,11 @@ def call_method(m: Any, recv: V, name: str, args: list[V], kwargs: dict[str, V],
             return recv
     if isinstance(recv, VRec) and recv.sort.pycls:
         key = m.world.mro_lookup(recv.sort.pycls, name)
+        if key is not None:
+            return m.call_contract(key, [recv] + args, kwargs)
+    if isinstance(recv, VU):
+        cls = getattr(m.world, "usort_class", {}).get(recv.sort.name)
+        key = m.world.mro_lookup(cls, name) if cls else None
         if key is not None:
             return m.call_contract(key, [recv] + args, kwargs)
     if isinstance(recv, VOpt):
